@@ -103,6 +103,27 @@ func main() {
 			}
 		}
 		e.cmdMods(ex)
+	case "reads":
+		// reads FUNC [HEAP]: the read set, or why HEAP is in it
+		fn := e.funcs[fs.Arg(0)]
+		if fn == nil {
+			fmt.Fprintln(os.Stderr, "unknown function")
+			os.Exit(3)
+		}
+		if fs.NArg() > 1 {
+			for _, l := range e.readWitness(fn, fs.Arg(1)) {
+				fmt.Println("  ", l)
+			}
+		} else {
+			var ns []string
+			for n := range e.readset(fn) {
+				ns = append(ns, n)
+			}
+			sort.Strings(ns)
+			for _, n := range ns {
+				fmt.Println(n)
+			}
+		}
 	case "names":
 		var ns []string
 		for n := range e.funcs {
@@ -142,6 +163,7 @@ func (e *Engine) genFunc(name string) (*FnCtx, error) {
 		return fc, err
 	}
 	fc.checkFrame()
+	fc.checkDeterministic()
 	fc.finalize()
 	return fc, nil
 }
